@@ -4,7 +4,9 @@ package c08
 import (
 	"fmt"
 	"math"
+	"sync"
 	"testing"
+	"time"
 
 	"github.com/cinar/indicator/v2/asset"
 	"github.com/cinar/indicator/v2/helper"
@@ -340,8 +342,71 @@ func check(c Case) engine.Outcome {
 	return o
 }
 
+// slowReaderProp: once per run the reader of the outcome stream of ComputeWithOutcome pauses (21 s
+// in the quick tier, 61 s in the thorough one; waiting, not a verdict) while the action stream keeps
+// being read. A slow reader is not a reader that has gone: every (value, action) pair still gets
+// its entry.
+func slowReaderProp() engine.AnyProp {
+	type sc struct {
+		N int `json:"n"`
+	}
+	return engine.Prop[sc]{ID: "C08", Subject: "Outcome/slow-reader",
+		Gen: func(t *rapid.T) sc { return sc{N: rapid.IntRange(10, 20).Draw(t, "n")} },
+		Check: func(c sc) engine.Outcome {
+			var o engine.Outcome
+			o.Key = "skipped"
+			if !engine.OncePerRun("C08-slow-reader") {
+				return o
+			}
+			o.Key = fmt.Sprint("slow reader", c.N)
+			pause := 21 * time.Second
+			if engine.Thorough() {
+				pause = 61 * time.Second
+			}
+			values := make([]float64, c.N)
+			for i := range values {
+				values[i] = 10 + float64(i)
+			}
+			var acts []strategy.Action
+			var outs []float64
+			verdict, detail := pipe.Call(func() {
+				a, oc := strategy.ComputeWithOutcome(strategy.NewBuyAndHoldStrategy(), helper.SliceToChan(stub.SnapshotsFromCloses(values)))
+				var done sync.WaitGroup
+				done.Add(1)
+				go func() {
+					defer done.Done()
+					for x := range a {
+						acts = append(acts, x)
+					}
+				}()
+				outs = append(outs, <-oc)
+				time.Sleep(pause)
+				for x := range oc {
+					outs = append(outs, x)
+				}
+				done.Wait()
+			})
+			if verdict != "ok" {
+				o.Failf("ComputeWithOutcome with an outcome reader that pauses %v: %s: %s", pause, verdict, detail)
+				return o
+			}
+			if len(acts) != c.N || len(outs) != c.N {
+				o.Failf("ComputeWithOutcome over %d snapshots with an outcome reader that pauses %v after the first entry: %d actions, %d outcomes (one entry per pair is due)", c.N, pause, len(acts), len(outs))
+				return o
+			}
+			for i, v := range values {
+				if w := v/values[0] - 1; math.Abs(outs[i]-w) > 1e-12 {
+					o.Failf("slow reader: buy-and-hold outcome[%d] = %v, want %v", i, outs[i], w)
+					return o
+				}
+			}
+			o.NonTrivial = true
+			return o
+		}}
+}
+
 func props() []engine.AnyProp {
-	return []engine.AnyProp{engine.Prop[Case]{ID: "C08", Subject: "Outcome", Gen: genCase, Check: check}}
+	return []engine.AnyProp{engine.Prop[Case]{ID: "C08", Subject: "Outcome", Gen: genCase, Check: check}, slowReaderProp()}
 }
 
 func TestC08(t *testing.T) { engine.RunAll(t, props(), false) }
